@@ -49,7 +49,7 @@ def oracle(p):
             st = {e[0]: e[1] for e in parts[8]}
             for srow in parts[9]:
                 sid = srow[0]
-                if sid in skip or st.get(sid) in (None, 6):
+                if sid in skip or st.get(sid) in (None, 6) or sid >= 2 ** 31:      # (ids above 2^31-1 go out under another wire id: F-C09-1)
                     continue
                 want = iws + upd.get(sid, 0) - got.get(sid, 0)
                 if srow[2] != want:
